@@ -52,6 +52,16 @@ prop("C12", True,
      "dominating-condition extraction + guarded reachability + who-may-write + registry exhaustiveness over go/ssa",
      "DESIGN.md §2 C12")
 
+prop("C13", True,
+     "Static check of the JA3 mechanism for every ClientHello: field consumption order by dominance, ascending walks, sibling rule over the three 16-bit list loops "
+     "(every formatted use of an element is dominated by the negative outcome of a GREASE test whose table is exactly the 16 values 0x0a0a+k*0x1010; the point-format loop unfiltered), "
+     "only decimal formatting and the separators '-' and ',', JA3Digest = hex(md5([]byte(JA3()))), extension types appended once per extension independent of type and stored on the hello, "
+     "cipher suites/curves filled by ascending index as big-endian 16-bit values, clientHelloInfo field pairing, https events carrying hello.JA3Digest()/hello.ServerName. "
+     "Decides shape and order on all paths; MD5/hex/decimal formatting are trusted.",
+     "Trusts crypto/md5, encoding/hex, fmt/strconv; record-layer reassembly not analysed; arithmetic-mask GREASE predicates are rejected as undecidable by the rule (table/switch forms accepted).",
+     "dominance-ordered field use + sibling-loop cross-check + dominating-condition extraction + provenance over go/ssa",
+     "DESIGN.md §2 C13")
+
 PENDING = {
  "C01": "check not built yet in this revision (design: DESIGN.md §2 C01)",
 }
